@@ -133,6 +133,29 @@ pub static E1_DEF: Def = Def {
 };
 corpus_impl!(E1, bytes, E1_DEF, |t| match t { E1::Abc => 1, E1::Abd => 2, E1::Num => 3, E1::Abcde => 4 }, |_e| 0, |_x| (0, true, 0, 0));
 
+// ---- E3: a NON-ROOT state with more than two outgoing byte classes and nothing accepted yet (rendered as a jump table by
+// both generators): keywords sharing their first byte, no identifier rule - the error ends right before the fatal byte
+#[derive(Logos, Debug, PartialEq, Clone, Copy)]
+#[logos(utf8 = false)]
+pub enum E3 {
+    #[token("if")] If,
+    #[token("in")] In,
+    #[token("is")] Is,
+    #[token("io7")] Io7,
+    #[regex("[0-9]+")] Num,
+}
+pub static E3_DEF: Def = Def {
+    name: "E3", utf8: false, decide: no_callbacks, log_callbacks: false, default_err: plain_default,
+    pats: &[
+        Pat { p: P::Lit(b"if"), prio: 4, act: Act::Tok(1) },
+        Pat { p: P::Lit(b"in"), prio: 4, act: Act::Tok(2) },
+        Pat { p: P::Lit(b"is"), prio: 4, act: Act::Tok(3) },
+        Pat { p: P::Lit(b"io7"), prio: 6, act: Act::Tok(4) },
+        Pat { p: P::Plus(&DIGIT), prio: 2, act: Act::Tok(5) },
+    ],
+};
+corpus_impl!(E3, bytes, E3_DEF, |t| match t { E3::If => 1, E3::In => 2, E3::Is => 3, E3::Io7 => 4, E3::Num => 5 }, |_e| 0, |_x| (0, true, 0, 0));
+
 // ---- B6: a class that excludes exactly two non-adjacent bytes out of all 256, on an edge to another state (rendered as a
 // comparison chain with exceptions, not as a table): character literals and escapes
 #[derive(Logos, Debug, PartialEq, Clone, Copy)]
